@@ -60,6 +60,8 @@ type e20Suite struct {
 	fresh  []sdk.AccAddress // addresses without an account
 	metaV  map[string]int
 	scale  int
+	crowd  bool     // a world whose registry is filled past the query servers' default page size (100)
+	extra  []string // further registrable coins of a crowded world
 }
 
 func tokenAddr(i int) common.Address {
@@ -85,7 +87,15 @@ func (s *e20Suite) newWorld() {
 	s.kaddr = nil
 	s.mod = authtypes.NewModuleAddress(erc20types.ModuleName)
 	modHex := common.BytesToAddress(s.mod)
-	for n := 0; n < 40; n++ {
+	nk := 40
+	s.extra = nil
+	if s.crowd {
+		nk = 170
+		for i, n := 0, 101+r.Intn(12); i < n; i++ {
+			s.extra = append(s.extra, fmt.Sprintf("m%03dcoin", i))
+		}
+	}
+	for n := 0; n < nk; n++ {
 		s.kaddr = append(s.kaddr, crypto.CreateAddress(modHex, uint64(n)))
 	}
 	// hex-address-shaped denominations: bare 40 hex digits starting with a letter. One is a fixed literal, the others
@@ -122,6 +132,7 @@ func (s *e20Suite) newWorld() {
 	for _, d := range s.hexDen {
 		fund = fund.Add(sdk.NewCoin(d, big1))
 	}
+
 	for _, d := range s.aliasDen {
 		fund = fund.Add(sdk.NewCoin(d, big1))
 	}
@@ -145,6 +156,19 @@ func (s *e20Suite) newWorld() {
 	}
 	s.coins = append(s.coins, "erc20/"+s.tokens[nTokens-1].String())
 	w := s.w
+	if len(s.extra) > 0 {
+		// the further coins of a crowded world exist (supply > 0) in one account only, to keep the ledger small
+		xs := sdk.NewCoins()
+		for _, d := range s.extra {
+			xs = xs.Add(sdk.NewCoin(d, sdkmath.NewInt(1000)))
+		}
+		if err := w.App.BankKeeper.MintCoins(w.Ctx, erc20types.ModuleName, xs); err != nil {
+			panic(err)
+		}
+		if err := w.App.BankKeeper.SendCoinsFromModuleToAccount(w.Ctx, erc20types.ModuleName, w.Users[0], xs); err != nil {
+			panic(err)
+		}
+	}
 	for n, a := range s.kaddr {
 		w.SetAlias(a.Bytes(), fmt.Sprintf("k%d", n))
 	}
@@ -245,7 +269,12 @@ func (s *e20Suite) envLine() string {
 	for _, a := range all {
 		ed = append(ed, w.Alias(a.Bytes())+":"+tokenSafe(erc20types.CreateDenom(a.String())))
 	}
-	return fmt.Sprintf("E mod=%s zero=zero blocked=%s ca=%s ed=%s", w.Alias(s.mod), sortedJoin(blk), strings.Join(ca, ","), strings.Join(ed, ","))
+	// the application's module accounts, from its table of module-account permissions (not from BlockedAddrs)
+	var macc []string
+	for _, n := range ModuleNames() {
+		macc = append(macc, w.Alias(authtypes.NewModuleAddress(n)))
+	}
+	return fmt.Sprintf("E mod=%s zero=zero blocked=%s ca=%s ed=%s macc=%s", w.Alias(s.mod), sortedJoin(blk), strings.Join(ca, ","), strings.Join(ed, ","), sortedJoin(macc))
 }
 
 // ---------- state observation: params, registry (raw from the store), bank-side switches, metadata, module nonce ----------
@@ -536,7 +565,7 @@ func (s *e20Suite) amountUpTo(bal sdkmath.Int) sdkmath.Int {
 var (
 	devAny    = []string{"err", "revert"}
 	devBal    = []string{"err", "revert", "bal+1", "bal-1", "balnil", "balbad"}
-	devCommit = []string{"err", "revert", "revertmoved", "gas", "amt+1", "amt-1", "noop", "false", "falsemoved", "retempty", "retbad", "ret2", "approval", "approvalfirst", "approval1", "approval4", "notopics", "otherlog", "credit"}
+	devCommit = []string{"err", "revert", "revertmoved", "gas", "amt+1", "amt-1", "amtx2", "neg", "neg", "noop", "false", "falsemoved", "retempty", "retbad", "ret2", "approval", "approvalfirst", "approval1", "approval4", "notopics", "otherlog", "credit"}
 )
 
 func (s *e20Suite) pickDev(kind string, num, den int) Dev {
@@ -841,7 +870,7 @@ func (s *e20Suite) opRegisterCoin(force bool) {
 		reg[p.Denom] = true
 	}
 	var free []string
-	for _, d := range s.coins[:nRegCoins] {
+	for _, d := range append(append([]string{}, s.coins[:nRegCoins]...), s.extra...) {
 		if !reg[d] {
 			free = append(free, d)
 		}
@@ -1474,10 +1503,28 @@ func runErc20(seed uint64, nOps int, outPath string, honest bool, realFrom int) 
 		if honest && !s.real {
 			perWorld = nOps / 2
 		}
+		// the second world of the non-honest suite is crowded: more pairs than one default page of the query servers
+		s.crowd = !honest && world == 1
+		if s.crowd {
+			perWorld = 120
+		}
 		world++
 		s.newWorld()
 		s.t.Line(s.envLine())
 		s.sync()
+		if s.crowd {
+			for range s.extra {
+				if done >= nOps {
+					break
+				}
+				b := s.t.seq
+				s.opRegisterCoin(true)
+				count(b)
+			}
+			b := s.t.seq
+			s.opReimport()
+			count(b)
+		}
 		// seed the registry with mostly valid registrations
 		for i := 0; i < 6 && done < nOps; i++ {
 			b := s.t.seq
